@@ -143,7 +143,7 @@ def project(s):
             for f in t.fields:
                 chk("%s.%s" % (n, f.name), f.type)
                 fl.append({"w": nm(f.name), "type": tref(f.type), "args": args("%s.%s" % (n, f.name), f.arguments), "py": f.python_name,
-                           "res": rid(f.resolver), "dep": f.deprecation_reason or "", "desc": f.description or ""})
+                           "res": rid(f.resolver), "sres": rid(getattr(f, "subscription_resolver", None)), "dep": f.deprecation_reason or "", "desc": f.description or ""})
             d = {"k": "object" if isinstance(t, ObjectType) else "interface", "name": n, "fields": fl, "desc": t.description or ""}
             if isinstance(t, ObjectType):
                 d["ifaces"] = [i.name for i in t.interfaces]
@@ -193,7 +193,7 @@ def normalize(a):
         d = {"k": k, "name": t["name"]}
         if k in ("object", "interface"):
             d["fields"] = [{"w": list(f["w"]), "type": f["type"], "args": args(f["args"]), "py": py(f), "res": f["res"],
-                            "dep": f["dep"], "desc": f["desc"]} for f in t["fields"]]
+                            "sres": "sub_" + f["res"] if f["res"] == "r_sub" else "", "dep": f["dep"], "desc": f["desc"]} for f in t["fields"]]
             d["desc"] = t["desc"]
             if k == "object":
                 d["ifaces"] = list(t["ifaces"])
